@@ -206,3 +206,48 @@ func VH_C08_Inv() {
 	vAssert("inv:lunar-year", l.year == Y || l.year == Y-1 || l.year == Y+1)
 	vReach("C08i")
 }
+
+// C08e: the lunar-year object for EVERY year at once (year symbolic).  NewLunarYear's own index arithmetic is executed
+// symbolically with the astronomical table computation cut out (vSkipTables); the accessors that depend only on the
+// year number and its stem/branch indices are then total and inside their tables.
+func VH_C08_YearObjectAll() {
+	y := vInt("y", vParam("YLO"), vParam("YHI"))
+	CACHE_YEAR = nil
+	var ly *LunarYear
+	vSkipTables(func() { ly = NewLunarYear(y) })
+	vAssert("LunarYear.year", ly.GetYear() == y)
+	vAssert("LunarYear.ganIndex:in-table", ly.GetGanIndex() >= 0 && ly.GetGanIndex() <= 9 && ly.GetGanIndex() == specMod(y-4, 10))
+	vAssert("LunarYear.zhiIndex:in-table", ly.GetZhiIndex() >= 0 && ly.GetZhiIndex() <= 11 && ly.GetZhiIndex() == specMod(y-4, 12))
+	chk := func(id string, f func() string) {
+		vEach(func() {
+			var r string
+			vAssert("LunarYear."+id+":no-panic", !vPanics(func() { r = f() }))
+			vAssert("LunarYear."+id+":non-empty", r != "")
+		})
+	}
+	chk("GetGan", ly.GetGan)
+	chk("GetZhi", ly.GetZhi)
+	chk("GetGanZhi", ly.GetGanZhi)
+	chk("GetYuan", ly.GetYuan)
+	chk("GetYun", ly.GetYun)
+	chk("GetPositionXi", ly.GetPositionXi)
+	chk("GetPositionXiDesc", ly.GetPositionXiDesc)
+	chk("GetPositionYangGui", ly.GetPositionYangGui)
+	chk("GetPositionYangGuiDesc", ly.GetPositionYangGuiDesc)
+	chk("GetPositionYinGui", ly.GetPositionYinGui)
+	chk("GetPositionYinGuiDesc", ly.GetPositionYinGuiDesc)
+	chk("GetPositionFu", ly.GetPositionFu)
+	chk("GetPositionFuDesc", ly.GetPositionFuDesc)
+	chk("GetPositionFuBySect(1)", func() string { return ly.GetPositionFuBySect(1) })
+	chk("GetPositionFuDescBySect(1)", func() string { return ly.GetPositionFuDescBySect(1) })
+	chk("GetPositionCai", ly.GetPositionCai)
+	chk("GetPositionCaiDesc", ly.GetPositionCaiDesc)
+	chk("GetPositionTaiSui", ly.GetPositionTaiSui)
+	chk("GetPositionTaiSuiDesc", ly.GetPositionTaiSuiDesc)
+	vEach(func() {
+		var ns *NineStar
+		vAssert("LunarYear.GetNineStar:no-panic", !vPanics(func() { ns = ly.GetNineStar() }))
+		vAssert("LunarYear.GetNineStar:in-table", ns != nil && ns.GetIndex() >= 0 && ns.GetIndex() <= 8)
+	})
+	vReach("C08e")
+}
